@@ -45,6 +45,8 @@ structure Func where
   fs : FS
   basis : Bool
   diff : Bool
+  /-- the `func_type` entry lists `gh_diff_basis` before `gh_basis` (ignored by the code) -/
+  diffFirst : Bool := false
   deriving DecidableEq, Repr
 
 structure Metadata where
